@@ -218,7 +218,10 @@ TEXT = {
           "gives its reads and the change set is independent of write order (changes_replay_*, changes_order_independent). "
           "The model is tied to the code by the vdb stream (every read of every operation sequence compared), a "
           "shadow-map monitor that states the property directly and a scan-vs-Get/Has monitor on every view (key alphabets "
-          "incl. the empty key, the record under a bare Subset prefix, 00 / ff runs, the internal prefix bytes).",
+          "incl. the empty key, the record under a bare Subset prefix, 00 / ff runs, the internal prefix bytes); the two cache levels "
+          "are exercised by order families around maximumCacheHeightDifference (an identifier re-opened near→far / far→far with the "
+          "frontier advancing, then every former frontier tag and its neighbours opened and validated in full); the in-memory manager "
+          "(vdb-mem) also with transactions of 2-4 commits that are added and rolled back as a whole.",
   "design_ref": "§3 C07",
   "note": "Sequential model; caches are not state of the model (cache-free Get; the cached path is covered by "
           "cached_overlay_sound + correspondence); hypotheses of a frontier commit: height = frontier height + 1 < 2^64, "
@@ -430,7 +433,9 @@ TEXT = {
           "nothing, every fusion / pillar / swap amount is present and non-negative; the only premise is the representation invariant of a Go map — and of checkGenesisCompatibility (refused iff "
           "stored height-1 hash differs); tied to the tree by regenerated facts (validator order, comparer operator, header "
           "field order, contract addresses) and a differential stream on the real NewGenesis / CheckGenesis / "
-          "ReadGenesisConfigFromFile / chain.Init.",
+          "ReadGenesisConfigFromFile / chain.Init, and through the node-level path (node.NewNode on genesis files, several nodes in "
+          "one process: the genesis follows the contents of the configured file, not the path or what the process loaded before; "
+          "start on a foreign database refused).",
   "design_ref": "§3 C20",
   "note": "Permutation / fresh-process invariance of the whole genesis momentum is decided on the real code by the stream's "
           "monitor, not by a theorem. The six defects the check had found in the validators (F13a-f: no contract entry, "
@@ -461,8 +466,11 @@ TEXT = {
           "empty channels whatever the previous one left and its block fetcher cannot return before its hash fetcher said so, and a "
           "dropped peer is the one at fault (forged block / failed import: the deliverer; the peer synchronised from only for its own "
           "faults); the seeded change C15-r2-1 and the pre-repair code of FU1 / FU2 are variants of the same step function with "
-          "kernel-checked counterexamples. The p2p-net scenarios are replayed through the model by the driver (who is dropped, synced, "
-          "stalled).",
+          "kernel-checked counterexamples; a request in flight at a peer that LEFT (unregister) expires like any other - the hashes go "
+          "back to the queue, an update drops only registered peers, the peer that stayed serves them (expired_request_goes_back, "
+          "update_drops_only_registered, departed_peer_request_*). The p2p-net scenarios - incl. the family in which a peer leaves "
+          "(disconnect with each reason / closed or reset connection / protocol error) at every stage while a request to it is in "
+          "flight - are replayed through the model by the driver (who is dropped, synced, stalled).",
   "design_ref": "§3 C15",
   "note": "Only the handler logic is proved. Survival on arbitrary bytes, allocation inside rlp, goroutine hygiene and liveness are "
           "differential testing against the total model, not proof; the rlpx frame reader and the discovery packet decoder have "
